@@ -58,7 +58,8 @@ Theorem ring_recv_outcome v s pre tl :
   rh_stop s1 = false /\ rh_in s1 = rh_in s /\
   ((length (rh_msgs s1) = S (length (rh_msgs s)) /\ dcode (dq_st (rh_d s1)) = 0 /\ rh_unread s1 = tl) \/
    (rh_msgs s1 = rh_msgs s /\ rh_live v s1 /\ rh_free s < length pre + 17 /\
-    exists pre1, rh_unread s1 = pre1 ++ 0%N :: tl /\ nozero pre1 = true /\ length pre1 <= length pre)).
+    exists pre1, rh_unread s1 = pre1 ++ 0%N :: tl /\ nozero pre1 = true /\ length pre1 <= length pre /\
+      length pre1 + rh_free s <= length pre + 17)).
 Proof.
   intros [Hh Hq] Est Hl Hun Hz. specialize (Hq Est). cbn zeta. unfold rh_step. rewrite Est.
   unfold rh_unread in Hun. unfold rh_live in Hl. unfold rh_free.
@@ -75,7 +76,7 @@ Proof.
   unfold dqueue_recv. fold q st. destruct (Nat.eqb_spec (qlen q) 0); [contradiction|].
   destruct (dec_call_res v st (contents q) (ring_frags q) [qoff q mod 16] false) as [[r st1] flat1].
   destruct Hdr as (q1 & -> & Hq1 & Hc1 & Hl1 & Hm1 & Ho1). cbn [bind].
-  destruct Hlive as [(-> & pre' & tl' & Eu & Hz' & Hcur)|(-> & Hl1' & j & Hcur & Hzj & Hgap)].
+  destruct Hlive as [(-> & pre' & tl' & Eu & Hz' & Hcur)|(-> & Hl1' & j & Hcur & Hzj & Hgap & Hcons)].
   - (* delivered by the first decoding *)
     destruct Hpost as (k & body & _ & _ & _ & Hsk & _ & _ & Hc' & Hm').
     destruct (deliver_outcome v s q1 st1 Hq1 ltac:(rewrite Hc1; exact Hc') Hm') as (S1 & S2 & S3 & S4 & S5).
@@ -96,7 +97,7 @@ Proof.
       unfold rh_unread, rh_live. cbn [rh_after rh_stop rh_in rh_msgs rh_d dq_q dq_st].
       split; [reflexivity|]. split; [reflexivity|]. right. split; [reflexivity|].
       split; [rewrite Hc1; exact Hl1'|]. split; [lia|].
-      exists (skipn j pre). rewrite Hc1. split; [exact Hun1|]. split; assumption.
+      exists (skipn j pre). rewrite Hc1. split; [exact Hun1|]. split; [assumption|]. split; [assumption|lia].
     + (* free space became scratch space: second decoding *)
       rewrite Hc1 in Hc3.
       set (st3 := st_rebuf st1 (length pre_) (length gap)) in *.
@@ -109,7 +110,7 @@ Proof.
       destruct (dec_call_res v st3 (contents q3) (ring_frags q3) [qoff q3 mod 16] false) as [[r2 st2] flat2].
       destruct Hdr3 as (q4 & -> & Hq4 & Hc4 & _). cbn [bind].
       unfold live_result in Hlive3. rewrite Hun3, Hun1 in Hlive3.
-      destruct Hlive3 as [(-> & pre' & tl' & Eu & Hz' & Hcur3)|(-> & Hl2 & j2 & Hcur3 & Hzj2 & Hgap3)].
+      destruct Hlive3 as [(-> & pre' & tl' & Eu & Hz' & Hcur3)|(-> & Hl2 & j2 & Hcur3 & Hzj2 & Hgap3 & Hcons3)].
       * destruct Hpost3 as (k3 & body & _ & _ & _ & Hsk3 & _ & _ & Hc2' & Hm2').
         destruct (deliver_outcome v s q4 st2 Hq4 ltac:(rewrite Hc4; exact Hc2') Hm2') as (S1 & S2 & S3 & S4 & S5).
         split; [exact S1|]. split; [exact S2|]. left. split; [exact S3|]. split; [exact S4|].
@@ -124,7 +125,8 @@ Proof.
         pose proof (nozero_firstn_le (skipn j pre) tl j2 Hzj2) as Hj2.
         exists (skipn j2 (skipn j pre)). rewrite Hc4, Hsk3, Hcur3, <- skipn_skipn', Hun3, Hun1.
         split; [apply skipn_before_zero; exact Hj2|].
-        split; [apply nozero_skipn; exact Hz1|]. rewrite skipn_length. lia.
+        split; [apply nozero_skipn; exact Hz1|].
+        unfold st3 in Hcons3. rewrite gapof_rebuf in Hcons3. rewrite !skipn_length in *. split; lia.
 Qed.
 
 (* ---------- receive; if nothing came out, enlarge and receive again ---------- *)
@@ -153,7 +155,7 @@ Theorem ring_round_delivers v s pre tl n fill :
 Proof.
   intros Hi Est Hl Hun Hz Hn. cbn zeta. unfold rh_round.
   pose proof (rh_step_inv v s RRecv Hi) as Hi1.
-  destruct (ring_recv_outcome v s pre tl Hi Est Hl Hun Hz) as (Est1 & Hin1 & [(Hm1 & Hc1 & Hu1)|(Hm1 & Hl1 & Hfree & pre1 & Hu1 & Hz1 & Hlen1)]).
+  destruct (ring_recv_outcome v s pre tl Hi Est Hl Hun Hz) as (Est1 & Hin1 & [(Hm1 & Hc1 & Hu1)|(Hm1 & Hl1 & Hfree & pre1 & Hu1 & Hz1 & Hlen1 & Hcons1)]).
   - rewrite Hm1. destruct (Nat.eqb_spec (S (length (rh_msgs s))) (length (rh_msgs s))); [lia|].
     repeat (split; [assumption|]). assumption.
   - rewrite Hm1, Nat.eqb_refl.
@@ -198,4 +200,60 @@ Proof.
     destruct (ring_round_delivers v s body rest n fill Hi Est Hl Hu Hz ltac:(lia)) as (Hi1 & Est1 & Hin1 & Hm1 & Hc1 & Hu1).
     destruct (IH (rh_round v n fill s) n fill Hi1 Est1 Hc1 Hu1 ltac:(lia)) as (Hi2 & Est2 & Hin2 & Hm2 & Hc2 & Hu2).
     cbn zeta in *. split; [assumption|]. split; [assumption|]. split; [congruence|]. split; [lia|]. split; assumption.
+Qed.
+
+(* ---------- the growth policy of mpt_stream_dispatch: 64 bytes per attempt ---------- *)
+(* one round with ANY enlargement n >= 18: the message, or at least n - 17 bytes of the frame
+   consumed (every byte of scratch space is paid for by a consumed byte) *)
+Theorem ring_round_progress v s pre tl n fill :
+  rh_inv v s -> rh_stop s = false -> rh_live v s -> rh_unread s = pre ++ 0%N :: tl -> nozero pre = true ->
+  let s' := rh_round v n fill s in
+  rh_inv v s' /\ rh_stop s' = false /\ rh_in s' = rh_in s /\
+  ((length (rh_msgs s') = S (length (rh_msgs s)) /\ dcode (dq_st (rh_d s')) = 0 /\ rh_unread s' = tl) \/
+   (rh_msgs s' = rh_msgs s /\ rh_live v s' /\
+    exists pre2, rh_unread s' = pre2 ++ 0%N :: tl /\ nozero pre2 = true /\ length pre2 + n <= length pre + 17)).
+Proof.
+  intros Hi Est Hl Hun Hz. cbn zeta. unfold rh_round.
+  pose proof (rh_step_inv v s RRecv Hi) as Hi1.
+  destruct (ring_recv_outcome v s pre tl Hi Est Hl Hun Hz) as (Est1 & Hin1 & [(Hm1 & Hc1 & Hu1)|(Hm1 & Hl1 & Hfree & pre1 & Hu1 & Hz1 & Hlen1 & Hcons1)]).
+  - rewrite Hm1. destruct (Nat.eqb_spec (S (length (rh_msgs s))) (length (rh_msgs s))); [lia|].
+    split; [assumption|]. split; [assumption|]. split; [assumption|]. left. split; [assumption|]. split; assumption.
+  - rewrite Hm1, Nat.eqb_refl.
+    set (s1 := rh_step v s RRecv) in *.
+    destruct (grow_outcome v s1 n fill Hi1 Est1) as (Est2 & Hin2 & Hm2 & Hu2 & Hl2 & Hfree2).
+    pose proof (rh_step_inv v s1 (RGrow n fill) Hi1) as Hi2.
+    set (s2 := rh_step v s1 (RGrow n fill)) in *.
+    pose proof (rh_step_inv v s2 RRecv Hi2) as Hi3.
+    destruct (ring_recv_outcome v s2 pre1 tl Hi2 Est2 (Hl2 Hl1) ltac:(rewrite Hu2; exact Hu1) Hz1)
+      as (Est3 & Hin3 & [(Hm3 & Hc3 & Hu3)|(Hm3 & Hl3 & _ & pre2 & Hu3 & Hz3 & Hlen3 & Hcons3)]).
+    + split; [assumption|]. split; [assumption|]. split; [congruence|]. left. split; [congruence|]. split; assumption.
+    + split; [assumption|]. split; [assumption|]. split; [congruence|]. right. split; [congruence|]. split; [assumption|].
+      exists pre2. split; [assumption|]. split; [assumption|]. lia.
+Qed.
+
+(* rounds until the first delivery *)
+Fixpoint rh_until (v : variant) (n : nat) (fill : byte) (k : nat) (s : rh) : rh :=
+  match k with
+  | 0 => s
+  | S k => let s' := rh_round v n fill s in
+           if length (rh_msgs s') =? length (rh_msgs s) then rh_until v n fill k s' else s'
+  end.
+
+(* with the dispatcher's policy (one enlargement by n = 64 per attempt): a complete frame of
+   [length pre] bytes is delivered after at most length pre / (n - 17) + 1 attempts *)
+Theorem ring_until_delivers v n fill : 18 <= n -> forall k s pre tl,
+  rh_inv v s -> rh_stop s = false -> rh_live v s -> rh_unread s = pre ++ 0%N :: tl -> nozero pre = true ->
+  length pre < (n - 17) * k ->
+  let s' := rh_until v n fill k s in
+  rh_inv v s' /\ rh_stop s' = false /\ rh_in s' = rh_in s /\
+  length (rh_msgs s') = S (length (rh_msgs s)) /\ dcode (dq_st (rh_d s')) = 0 /\ rh_unread s' = tl.
+Proof.
+  intros Hn. induction k as [|k IH]; intros s pre tl Hi Est Hl Hun Hz Hk; [lia|].
+  cbn [rh_until]. cbn zeta.
+  destruct (ring_round_progress v s pre tl n fill Hi Est Hl Hun Hz) as (Hi' & Est' & Hin' & [(Hm' & Hc' & Hu')|(Hm' & Hl' & pre2 & Hu' & Hz' & Hlen')]).
+  - rewrite Hm'. destruct (Nat.eqb_spec (S (length (rh_msgs s))) (length (rh_msgs s))); [lia|].
+    split; [assumption|]. split; [assumption|]. split; [assumption|]. split; [assumption|]. split; assumption.
+  - rewrite Hm', Nat.eqb_refl.
+    destruct (IH (rh_round v n fill s) pre2 tl Hi' Est' Hl' Hu' Hz' ltac:(nia)) as (H1 & H2 & H3 & H4 & H5 & H6).
+    cbn zeta in *. split; [assumption|]. split; [assumption|]. split; [congruence|]. split; [congruence|]. split; assumption.
 Qed.
